@@ -237,10 +237,12 @@ Fixpoint mkdirall_from (f : fs) (cur : nat) (trav ps : list string) (perm : N) :
 Definition mkdirall (f : fs) (p : path) (perm : N) : fres fs :=
   mkdirall_from f root_ino [] (p_comps p) perm.
 
+Definition upd_res (f : fs) (i : nat) (g : node -> node) : fres fs :=
+  match get f i with Some n => FOk (set_nth f i (g n)) | None => FErr end.
 Definition chmod (f : fs) (p : path) (perm : N) : fres fs :=
-  fdo i <- gn f p; FOk (upd f i (fun n => with_perm n perm)).
+  fdo i <- gn f p; upd_res f i (fun n => with_perm n perm).
 Definition chown (f : fs) (p : path) (u g : N) : fres fs :=
-  fdo i <- gn f p; FOk (upd f i (fun n => with_owner n u g)).
+  fdo i <- gn f p; upd_res f i (fun n => with_owner n u g).
 
 (* openFile with O_CREATE (flags differ only in O_TRUNC): returns the inode of
    the regular file finally opened; follows symlinks at the last component up
